@@ -392,6 +392,22 @@ class NumInterp(Interp):
 
     def ev(self, n):
         auto = getattr(self, 'auto', None)
+        if auto is not None and isinstance(n, ast.Attribute) and isinstance(n.value, ast.Name) and n.value.id == 'self' and isinstance(getattr(n, 'ctx', None), ast.Load) \
+                and auto[0] and n.attr in auto[0] and getattr(self, 'depth', 0) < 4:
+            try:
+                return self._ev_inner(n)
+            except Unsupported:
+                # a @property of the owning class that the rule's model of `self` does not carry: computed from the model by interpreting the property
+                fnode = auto[0][n.attr]
+                decs = {ast.unparse(d_).split('.')[-1] for d_ in fnode.decorator_list}
+                if not (decs & {'property', 'cached_property'}) or 'self' not in self.env:
+                    raise
+                sub = NumInterp({fnode.args.args[0].arg: self.env['self']}, call_hook=self.call_hook, attr_hook=self.attr_hook)
+                sub.auto = auto
+                sub.globals = getattr(self, 'globals', {})
+                sub.builtins = self.builtins
+                sub.depth = getattr(self, 'depth', 0) + 1
+                return sub.call(fnode)
         if auto is None or not isinstance(n, ast.Call) or getattr(self, '_retrying', False):
             return self._ev_inner(n)
         try:
